@@ -149,6 +149,33 @@ Definition dispatched_ok : bool :=
        end
      else true) pairs.
 
+
+(** * sizes: C types (LP64, x86-64) and the sizes MPI mandates for the sized datatypes *)
+Definition ctype_size (c : string) : Z :=
+  let is := String.eqb c in
+  if is "char" || is "signed char" || is "unsigned char" || is "int8_t" || is "uint8_t" || is "bool" then 1
+  else if is "short" || is "unsigned short" || is "int16_t" || is "uint16_t" then 2
+  else if is "int" || is "unsigned int" || is "int32_t" || is "uint32_t" || is "float" || is "wchar_t" then 4
+  else if is "long" || is "unsigned long" || is "long long" || is "unsigned long long" || is "int64_t" || is "uint64_t"
+          || is "double" || is "MPI_Aint" || is "MPI_Offset" || is "void*" then 8
+  else if is "long double" || is "integer128_t" then 16
+  else if is "float _Complex" || is "std::complex<float>" || is "float_int" || is "short_int" || is "int_int" || is "float_float" then 8
+  else if is "double _Complex" || is "std::complex<double>" || is "double_int" || is "long_int" || is "long_long" || is "double_double" then 16
+  else if is "long double _Complex" || is "std::complex<long double>" || is "long_double_int" then 32
+  else 0.
+Definition mandated_size (dt : string) : option Z :=
+  assoc dt [("MPI_BYTE", 1); ("MPI_INT8_T", 1); ("MPI_INT16_T", 2); ("MPI_INT32_T", 4); ("MPI_INT64_T", 8);
+            ("MPI_UINT8_T", 1); ("MPI_UINT16_T", 2); ("MPI_UINT32_T", 4); ("MPI_UINT64_T", 8);
+            ("MPI_INTEGER1", 1); ("MPI_INTEGER2", 2); ("MPI_INTEGER4", 4); ("MPI_INTEGER8", 8); ("MPI_INTEGER16", 16);
+            ("MPI_REAL4", 4); ("MPI_REAL8", 8); ("MPI_REAL16", 16);
+            ("MPI_COMPLEX8", 8); ("MPI_COMPLEX16", 16); ("MPI_COMPLEX32", 32)].
+(* declared with a C type of another size (recorded in KNOWN_FINDINGS.txt, signature wrong-size) *)
+Definition size_exception (dt : string) : bool := String.eqb dt "MPI_COMPLEX32".
+Definition sizes_ok : bool :=
+  forallb (fun d => match mandated_size (fst d) with
+                    | Some n => Bool.eqb (ctype_size (fst (snd d)) =? n) (negb (size_exception (fst d)))
+                    | None => true end) dt_decl.
+
 (** * executable entry point.  input: fixed opidx dtidx n  a1v a1i .. anv ani  b1v b1i ..
     output: status (0 computed, 1 rejected, 2 accepted then aborts) followed by the n result elements *)
 Fixpoint map2e (f : elt -> elt -> elt) (a b : list (Z * Z)) : list Z :=
@@ -165,5 +192,16 @@ Definition run_c31 (inp : list Z) : list Z :=
            | None => [2]
            | Some (c, mac) => 0 :: map2e (elem_op (negb (fixed =? 0)) mac (ctype_kind c)) a b
            end
+  | _ => [-1]
+  end.
+
+(* input: opidx dtidx ; output: accepted mpi_allows extension aborts size_exception dispatched *)
+Definition run_c31_info (inp : list Z) : list Z :=
+  match inp with
+  | oi :: di :: _ =>
+      let op := nth (Z.to_nat oi) all_ops ""%string in
+      let dt := nth (Z.to_nat di) all_dts ""%string in
+      [bz (accepted op dt); bz (mpi_allows op dt); bz (extension op dt); bz (aborts op dt); bz (size_exception dt);
+       bz (match dispatch op dt with Some _ => true | None => false end)]
   | _ => [-1]
   end.
